@@ -225,3 +225,22 @@ theorem rect_evalM {A : EMat} {w : Nat} (ρ : Nat → Rat) (h : Rect A w) : Rect
   simpa using h r0 hr0
 
 end Ptn.C13
+
+namespace Ptn.C13
+
+/-! ### data for the non-vacuity examples of `Props.lean` -/
+
+/-- `L = R = 1`, `A = [[1, a], [2, 3a]]`. -/
+def exState : St :=
+  ⟨[[1, 0], [0, 1]], [[.num 1, .sym 1 1], [.num 2, .sym 3 1]], [[1, 0], [0, 1]], .ok⟩
+
+/-- `L = 1₃`, `A = [[1, a], [0, 0], [2, b]]`, `R = 1₂`: row 1 is zero. -/
+def exStateZeroRow : St :=
+  ⟨[[1, 0, 0], [0, 1, 0], [0, 0, 1]], [[.num 1, .sym 1 1], [.num 0, .num 0], [.num 2, .sym 1 2]],
+    [[1, 0], [0, 1]], .ok⟩
+
+/-- `A = [[1, a], [3, 3a]]`: parallel rows and (with `a`) non-parallel columns. -/
+def exStateParallel : St :=
+  ⟨[[1, 0], [0, 1]], [[.num 1, .sym 1 1], [.num 3, .sym 3 1]], [[1, 0], [0, 1]], .ok⟩
+
+end Ptn.C13
